@@ -429,6 +429,10 @@ func ruleAztecEncoder(c *Ctx) {
 		c.expectCond(R, fmt.Sprintf("aztec.EncodeWithColor/no-data-iff#%d", i+1), ret.Pos(), rc, "stf.count/wf < 1")
 	}
 	checkAztecRefGrid(c, n, fn)
+	if nac := byCallee("aztec.newAztecCode"); len(nac) == 1 {
+		checkAztecDrawCalls(c, n, fn, join, nac[0].Common().Args[0])
+	}
+	checkAztecDataLayout(c, n, fn)
 }
 
 // A9: the reference grid of full-range symbols is complete. The symbol size reserves
@@ -703,8 +707,44 @@ func firstOpen(v ssa.Value, n *Normer, depth int) ssa.Value {
 		}
 		return nil
 	case *ssa.Lookup:
-		return firstOpen(x.Index, n, depth+1)
+		if p := firstOpen(x.Index, n, depth+1); p != nil {
+			return p
+		}
+		// a package-level table keyed by a flag: one alternative per value of the flag
+		if ld, ok := x.X.(*ssa.UnOp); ok && ld.Op == token.MUL && isBoolType(x.Index.Type()) {
+			if g, ok := ld.X.(*ssa.Global); ok && n.P.immutableGlobal(g) {
+				if _, isC := x.Index.(*ssa.Const); !isC {
+					return &boolPos{x.Index}
+				}
+			}
+		}
+		if isBoolType(x.Index.Type()) && n.FoldTables {
+			// ... or a map inside an entry of such a table that is already selected
+			if _, isC := x.Index.(*ssa.Const); !isC {
+				if _, decided := n.boolDecided(x.Index); !decided {
+					if tv, ok := n.tableVal(x.X, 0); ok && tv != nil && tv.Kind == VMap {
+						return &boolPos{x.Index}
+					}
+				}
+			}
+		}
+		return nil
+	case *ssa.Field:
+		return firstOpen(x.X, n, depth+1)
+	case *ssa.FieldAddr:
+		return firstOpen(x.X, n, depth+1)
+	case *ssa.Alloc:
+		// local copy of a table entry: exactly one store of the whole value
+		if stores, paths, escapes := storesTo(x); !escapes && len(stores) == 1 && len(paths[0]) == 0 {
+			return firstOpen(stores[0].Val, n, depth+1)
+		}
+		return nil
 	case *ssa.Call, *ssa.Extract:
+		if ex, ok := v.(*ssa.Extract); ok {
+			if lk, isLk := ex.Tuple.(*ssa.Lookup); isLk {
+				return firstOpen(lk, n, depth+1)
+			}
+		}
 		if _, _, ok := expandableCall(v, n); ok {
 			return v
 		}
@@ -726,6 +766,11 @@ func firstOpen(v ssa.Value, n *Normer, depth int) ssa.Value {
 type tablePos struct {
 	ssa.Value // the position
 	N         int
+}
+
+// boolPos: a choice point of firstOpen - the flag by which a package-level table is keyed.
+type boolPos struct {
+	ssa.Value
 }
 
 func smallTablePos(n *Normer, g *ssa.Global, idx ssa.Value) *tablePos {
@@ -846,6 +891,22 @@ func (n *Normer) valueCases(fn *ssa.Function, from *ssa.BasicBlock, v ssa.Value,
 					others = cAnd(others, cNot(cc))
 				}
 				n.env = append(n.env, map[ssa.Value]Poly{tp.Value: pConst(int64(k))})
+				rec(cAnd(cond, cc), decided+1)
+				n.env = n.env[:len(n.env)-1]
+			}
+			n.FoldTables = savedFold
+			return
+		}
+		if bp, ok := open.(*boolPos); ok && decided < 6 {
+			flag := n.CondOf(bp.Value)
+			savedFold := n.FoldTables
+			n.FoldTables = true
+			for _, b := range []int64{1, 0} {
+				cc := flag
+				if b == 0 {
+					cc = cNot(flag)
+				}
+				n.env = append(n.env, map[ssa.Value]Poly{bp.Value: pConst(b)})
 				rec(cAnd(cond, cc), decided+1)
 				n.env = n.env[:len(n.env)-1]
 			}
@@ -1010,4 +1071,17 @@ func pureLoopFreeAllowCalls(fn *ssa.Function) bool {
 		}
 	}
 	return true
+}
+
+// boolDecided: the boolean v has a fixed value in the current environment.
+func (n *Normer) boolDecided(v ssa.Value) (bool, bool) {
+	for i := len(n.env) - 1; i >= 0; i-- {
+		if p, ok := n.env[i][v]; ok {
+			if k, isK := p.IsConst(); isK {
+				return k != 0, true
+			}
+			return false, false
+		}
+	}
+	return false, false
 }
